@@ -7,6 +7,9 @@ specification of SkNet/Spec/Classify.lean.  Lemmas live in SkNet/Lemmas/Vote*.le
 import SkNet.Lemmas.VoteFit
 import SkNet.Lemmas.ClassifyDiffusionFit
 import SkNet.Lemmas.ClassifyReach
+import SkNet.Lemmas.ClassifyKnn
+import SkNet.Lemmas.ClassifyRank
+import SkNet.Lemmas.ClassMetrics
 
 namespace SkNet.C13
 open SkNet SkNet.Classify
@@ -220,5 +223,208 @@ example : (∀ p, 0 ≤ pathGraph.data.getD p 0) ∧
     (Diffusion.fit pathGraph [3,-1,-1,5,-1] 2 true).map (·.labels) = .ok [3,3,5,5,-1] ∧
     (Diffusion.fit pathGraph [3,-1,-1,5,-1] 2 false).map (·.labels) = .ok [3,3,5,5,-1] :=
   ⟨Vote.getD_nonneg_of_forall _ (by decide +kernel), by decide +kernel, by decide +kernel⟩
+
+/-- ★ **probability rows** (Propagation): every row of `normalize(adjacency.dot(membership))` is non-negative
+    and sums to 1, or to 0 when the node has no labelled neighbour (non-negative weights). -/
+theorem propagation_rows (c : Csr Rat) (hw : ∀ p, 0 ≤ c.data.getD p 0) (labels : List Int) (i : Nat) :
+    Spec.rowOK 0 (Propagation.probsRow c labels i) = true :=
+  propagation_probsRow_ok c hw labels i
+
+/-! ## NNClassifier -/
+
+/-- the selection contract of `np.argpartition(distances, k)[:k]` as far as the classifier needs it: `k`
+    positions of labelled nodes -/
+def SelOK (sel : Nat → List Rat → Nat → List Nat) : Prop :=
+  ∀ i ds k, k < ds.length → IsSmallestK ds k (sel i ds k) = true
+
+/-- ★ **seeds_kept** (NNClassifier): a labelled node gets a one-hot row and keeps its label, for any
+    selection of neighbours. -/
+theorem knn_seeds_kept (emb : List (List Rat)) (labels : List Int) (kArg : Nat)
+    (sel : Nat → List Rat → Nat → List Nat) (o : Knn.Out) (h : Knn.fitCore emb labels kArg sel = some o) :
+    ∀ i, 0 ≤ labels.getD i (-1) → o.labels.getD i (-1) = labels.getD i (-1) :=
+  fun i hseed => Knn.seeds_kept emb labels kArg sel o h i hseed
+
+/-- ★ **probability rows** (NNClassifier): every row of `probs_` is non-negative and sums to 1 (or to 0 when
+    no neighbour is selected). -/
+theorem knn_rows (emb : List (List Rat)) (labels : List Int) (kArg : Nat)
+    (sel : Nat → List Rat → Nat → List Nat) (o : Knn.Out) (h : Knn.fitCore emb labels kArg sel = some o) :
+    ∀ r ∈ o.probs, Spec.rowOK 0 r = true :=
+  Knn.rows_ok emb labels kArg sel o h
+
+/-- ★ **labels_in_seed_set** (NNClassifier): with at least two labelled nodes and `n_neighbors ≥ 1`, for any
+    selection satisfying the contract of `np.argpartition`, the label predicted for an unlabelled node is the
+    label of one of its selected labelled neighbours — in particular a seed label, never `-1`. -/
+theorem knn_labels_in_seed_set (emb : List (List Rat)) (labels : List Int) (kArg : Nat)
+    (sel : Nat → List Rat → Nat → List Nat) (hsel : SelOK sel) (o : Knn.Out)
+    (h : Knn.fitCore emb labels kArg sel = some o) (hk : 1 ≤ kArg) (h2 : 2 ≤ (Knn.trainIdx labels).length)
+    (i : Nat) (hi : i < labels.length) (htest : labels.getD i (-1) < 0) :
+    o.labels.getD i (-1) ∈ labels ∧ 0 ≤ o.labels.getD i (-1) := by
+  set k := (checkNeighbors kArg (Knn.trainIdx labels).length).toNat with hkd
+  have hk1 : 1 ≤ k := by
+    rw [hkd]
+    unfold checkNeighbors
+    split <;> omega
+  have hklt : k < (Knn.distances emb (Knn.trainIdx labels) (getRow emb i)).length := by
+    unfold Knn.distances
+    rw [List.length_map, hkd]
+    exact checkNeighbors_lt _ _ (by omega)
+  have hc := hsel i (Knn.distances emb (Knn.trainIdx labels) (getRow emb i)) k hklt
+  unfold IsSmallestK at hc
+  simp only [Bool.and_eq_true, beq_iff_eq, List.all_eq_true, decide_eq_true_eq] at hc
+  obtain ⟨⟨⟨hlen, _⟩, hrange⟩, _⟩ := hc
+  have hdl : (Knn.distances emb (Knn.trainIdx labels) (getRow emb i)).length = (Knn.trainIdx labels).length := by
+    unfold Knn.distances
+    simp
+  have hin : ∀ p ∈ sel i (Knn.distances emb (Knn.trainIdx labels) (getRow emb i)) k,
+      p < (Knn.trainIdx labels).length := by
+    intro p hp
+    rw [← hdl]
+    exact hrange p hp
+  have hne : Knn.neighbourLabels emb labels k sel i ≠ [] := by
+    unfold Knn.neighbourLabels
+    intro h0
+    have := congrArg List.length h0
+    simp only [List.length_map, List.length_nil] at this
+    omega
+  have hmem := Knn.test_label emb labels kArg sel o h i hi htest hne hin
+  unfold Knn.neighbourLabels at hmem
+  obtain ⟨p, hp, hpe⟩ := List.mem_map.mp hmem
+  have hlt := hin p hp
+  have hm : (Knn.trainIdx labels).getD p 0 ∈ Knn.trainIdx labels := by
+    rw [List.getD_eq_getElem?_getD, List.getElem?_eq_getElem hlt]
+    exact List.getElem_mem hlt
+  obtain ⟨h1, h0⟩ := (Knn.mem_trainIdx labels _).mp hm
+  rw [← hpe]
+  exact ⟨Diffusion.getD_mem h1 _, h0⟩
+
+/-- non-vacuity: a 2-dimensional integer embedding with ties, three seeds of two classes, `n_neighbors = 2`;
+    `smallestK` (the selection used by the `run` lines) satisfies the contract on this input -/
+example : (Knn.fitCore [[0,0],[1,0],[0,2],[3,3],[1,1]] [7,-1,7,2,-1] 2 (fun _ ds k => smallestK ds k)).map (·.labels)
+      = some [7,7,7,2,7] ∧
+    IsSmallestK (Knn.distances [[0,0],[1,0],[0,2],[3,3],[1,1]] [0,2,3] [1,1]) 2
+      (smallestK (Knn.distances [[0,0],[1,0],[0,2],[3,3],[1,1]] [0,2,3] [1,1]) 2) = true :=
+  ⟨by decide +kernel, by decide +kernel⟩
+
+/-! ## RankClassifier (PageRankClassifier) -/
+
+/-- ★ **labels_in_seed_set** (RankClassifier): whatever scores the ranking algorithm returns (one column per
+    class), every predicted label is one of the seed labels; with non-negative scores the normalised rows are
+    probability rows and the rows of `probs_` are non-negative. -/
+theorem rank_labels_in_seed_set (values : List Int) (scores : List (List Rat)) (o : Rank.Out)
+    (h : Rank.fitCore values scores = .ok o)
+    (hlen : ∀ r ∈ scores, r.length = (uniqueLabels values).length) :
+    Spec.labelsOK values o.labels = true ∧ ∀ x ∈ o.labels, x ≠ -1 := by
+  have := Rank.labels_in_seed_set values scores o h hlen
+  constructor
+  · unfold Spec.labelsOK
+    simp only [List.all_eq_true, Bool.or_eq_true, beq_iff_eq, Bool.and_eq_true, decide_eq_true_eq,
+      List.contains_iff_mem]
+    intro x hx
+    exact Or.inr ⟨(this x hx).2, (this x hx).1⟩
+  · intro x hx
+    have := (this x hx).2
+    omega
+
+theorem rank_rows_partial (values : List Int) (scores : List (List Rat)) (o : Rank.Out)
+    (h : Rank.fitCore values scores = .ok o) (hnn : ∀ r ∈ scores, ∀ x ∈ r, 0 ≤ x) :
+    (∀ r ∈ scores.map normalizeRow, Spec.rowOK 0 r = true) ∧ (∀ row ∈ o.probs, ∀ x ∈ row, 0 ≤ x) :=
+  ⟨Rank.normalised_rows_ok scores hnn, Rank.probs_nonneg values scores o h hnn⟩
+
+/-- Full statement for the rows of `probs_` of a RankClassifier: moving the columns of the normalised scores
+    to the label values keeps them probability rows.  Proved: the normalised rows are probability rows and the
+    moved rows are non-negative (`rank_rows_partial`); missing: the sum of a moved row equals the sum of the
+    normalised row (a re-indexing of a finite sum along the strictly increasing list of labels). It is checked
+    on every implementation output by the `spec` lines (`c13.spec_rank`). -/
+def rank_rows_full : Prop :=
+  ∀ (values : List Int) (scores : List (List Rat)) (o : Rank.Out),
+    Rank.fitCore values scores = .ok o → (∀ r ∈ scores, ∀ x ∈ r, 0 ≤ x) →
+    (∀ r ∈ scores, r.length = (uniqueLabels values).length) →
+    ∀ row ∈ o.probs, Spec.rowOK 0 row = true
+
+example : (Rank.fitCore [5,-1,2,-1] [[1/2,0],[1/4,1/4],[0,1],[0,0]]).map (·.labels) = .ok [2,2,5,2] := by
+  decide +kernel
+
+/-! ## NNLinker -/
+
+/-- ★ **nnlinker_spec**.  For every row and any selection `np.argpartition(-similarities, k)[:k]` may return,
+    the links kept by `_fit_core` are at most `k ≤ n_neighbors`, on distinct candidates, all at or above the
+    threshold, stored with their similarity, and none of them is weaker than a discarded candidate. -/
+theorem nnlinker_spec (sims : List Rat) (kArg : Nat) (thr : Rat) (top : List Nat) (hne : 0 < sims.length)
+    (htop : IsSmallestK (sims.map fun s => -s) (checkNeighbors kArg sims.length).toNat top = true) :
+    Spec.linkerRowOK sims (checkNeighbors kArg sims.length).toNat thr 0 (Linker.keepRow sims thr top) = true ∧
+    (checkNeighbors kArg sims.length).toNat ≤ kArg ∧ (checkNeighbors kArg sims.length).toNat < sims.length :=
+  ⟨Linker.keepRow_spec sims _ thr top htop, checkNeighbors_le _ _, checkNeighbors_lt _ _ hne⟩
+
+/-- the rows of `links_` are exactly `keepRow` of the similarities to the candidate columns -/
+theorem nnlinker_rows (emb : List (List Rat)) (mask : List Bool) (kArg : Nat) (thr : Rat)
+    (sel : Nat → List Rat → Nat → List Nat) (i : Nat) (hi : i < mask.length) (hm : mask.getD i false = true) :
+    (Linker.fitCore emb mask kArg thr sel).getD i [] =
+      let cols := if mask.length < emb.length then (List.range (emb.length - mask.length)).map (· + mask.length)
+        else List.range emb.length
+      let sims := cols.map fun j => dot (getRow emb j) (getRow emb i)
+      Linker.keepRow sims thr (sel i (sims.map fun s => -s) (checkNeighbors kArg cols.length).toNat) := by
+  unfold Linker.fitCore
+  simp only
+  rw [tab_getD]
+  simp [hi, hm]
+
+/-- non-vacuity: similarities with a tie at the boundary, `n_neighbors = 2`, threshold 1/2 -/
+example : IsSmallestK ([3/4, 1/4, 3/4, 1, 0].map fun s => -s) 2 [3, 0] = true ∧
+    Linker.keepRow [3/4, 1/4, 3/4, 1, 0] (1/2) [3, 0] = [(0, 3/4), (3, 1)] :=
+  ⟨by decide +kernel, by decide +kernel⟩
+
+/-! ## Classification metrics -/
+
+/-- ★ **metrics_eq_confusion** (accuracy, micro-averaged F1): the proportion of correct samples among those
+    with both labels non-negative is trace / total of the confusion matrix. -/
+theorem accuracy_eq_confusion (t p : List Int) (x : Rat) (h : ClassMetrics.accuracy t p = .ok x) :
+    x = Spec.accuracyDef (Spec.conf t p) (ClassMetrics.nLabels t p) ∧
+    ClassMetrics.averageF1 t p .micro = .ok x :=
+  ⟨ClassMetrics.accuracy_eq t p x h, h⟩
+
+/-- ★ **metrics_eq_confusion** (confusion matrix): `get_confusion_matrix` counts, for `i, j` below
+    `max(labels) + 1`, the samples with true label `i` and predicted label `j`. -/
+theorem confusion_eq (t p : List Int) (C : List (List Nat)) (h : ClassMetrics.confusion t p = .ok C) :
+    C.length = ClassMetrics.nLabels t p ∧
+    ∀ i j, i < ClassMetrics.nLabels t p → j < ClassMetrics.nLabels t p →
+      ClassMetrics.cell C i j = Spec.conf t p i j :=
+  ⟨ClassMetrics.confusion_length t p C h, fun i j hi hj => ClassMetrics.confusion_cell t p C h i j hi hj⟩
+
+/-- ★ **metrics_eq_confusion** (per-label scores): recall = TP / row sum, precision = TP / column sum,
+    F1 = 2·TP / (row sum + column sum), each 0 when its denominator (for F1: TP) is 0. -/
+theorem f1_scores_eq_confusion (t p : List Int) (s : ClassMetrics.Scores) (h : ClassMetrics.f1Scores t p = .ok s)
+    (l : Nat) (hl : l < ClassMetrics.nLabels t p) :
+    s.recall.getD l 0 = Spec.recallDef (Spec.conf t p) (ClassMetrics.nLabels t p) l ∧
+    s.precision.getD l 0 = Spec.precisionDef (Spec.conf t p) (ClassMetrics.nLabels t p) l ∧
+    s.f1.getD l 0 = Spec.f1Def (Spec.conf t p) (ClassMetrics.nLabels t p) l :=
+  ClassMetrics.scores_eq t p s h l hl
+
+/-- The weighted average F1 as the code computes it is **not** the confusion-matrix value when a sample has a
+    true label but a negative prediction: the code weights label `l` by the number of samples of true label `l`
+    among all samples with a non-negative true label (here 3 and 2), the confusion matrix has row sums 3 and 1.
+    (Known finding F-C13-weighted-f1: the repository's own test pins the code's value.) -/
+theorem weighted_f1_ne_confusion :
+    ClassMetrics.averageF1 [0,0,0,1,1] [0,0,1,1,-1] .weighted = .ok (56/75) ∧
+    Spec.weightedDef (Spec.conf [0,0,0,1,1] [0,0,1,1,-1]) (ClassMetrics.nLabels [0,0,0,1,1] [0,0,1,1,-1]) = 23/30 := by
+  exact ⟨by decide +kernel, by decide +kernel⟩
+
+/-- Full statement for the weighted average: equal to the confusion-matrix definition.  False as the code
+    stands (`weighted_f1_ne_confusion`); it holds when no sample has a non-negative true label and a negative
+    prediction (then the counts of the true labels are the row sums) — checked on every such generated input by
+    the `spec` lines, not proved. -/
+def weighted_f1_full : Prop :=
+  ∀ (t p : List Int) (x : Rat), ClassMetrics.averageF1 t p .weighted = .ok x →
+    x = Spec.weightedDef (Spec.conf t p) (ClassMetrics.nLabels t p)
+
+theorem weighted_f1_full_false : ¬ weighted_f1_full := by
+  intro h
+  have h1 := h [0,0,0,1,1] [0,0,1,1,-1] (56/75) weighted_f1_ne_confusion.1
+  rw [weighted_f1_ne_confusion.2] at h1
+  exact absurd h1 (by decide +kernel)
+
+/-- non-vacuity of the metric theorems -/
+example : ClassMetrics.accuracy [0,0,1,1,-1] [0,1,1,1,0] = .ok (3/4) ∧
+    (ClassMetrics.f1Scores [0,0,1,1,-1] [0,1,1,1,0]).map (·.f1) = .ok [2/3, 4/5] :=
+  ⟨by decide +kernel, by decide +kernel⟩
 
 end SkNet.C13
